@@ -340,6 +340,7 @@ type Exec struct {
 	stack      []*ssa.Function
 	forceInline bool
 	noCut      bool
+	yieldMode  bool // second run of a function with 'yields' clauses: loops unrolled, results must be terms over the arguments
 	prune      bool
 	nFeas      int
 	freshGhost map[uint32]bool
